@@ -43,6 +43,55 @@ theorem tstep_ti (hG : GI kd g) (hT : TI kd res t g th) (h : tstep kd res t g th
     refine ⟨by simpa [inLocked] using hl, by simp [kindOK, hk], ?_, by simp, by simp, ?_⟩
     · intro j hj; simp only [Option.some.injEq] at hj; subst hj; exact htl _ hi
     · simp only [pcInv]; exact ⟨⟨i, rfl, by simp [upd]⟩, hlen⟩
+  case gAlloc =>
+    have hshared : ∀ sl i, g.shared.lookup sl = some i → i ∈ g.inited ∧ i < g.next := fun sl i h =>
+      ⟨hG.sharedInited _ (lookup_mem h), hG.initedLt _ (hG.sharedInited _ (lookup_mem h))⟩
+    all_goals (try (split at h)) <;> (try (split at h)) <;> (try (split at h)) <;>
+      (try simp only [Option.some.injEq, Prod.mk.injEq, reduceCtorEq] at h) <;>
+      (try (obtain ⟨rfl, rfl⟩ := h))
+    all_goals
+      (constructor <;> (try simp only [inLocked, kindOK, pcInv]) <;> (try intro k) <;> (try simp_all [upd]) <;>
+        (try (split <;> simp_all)) <;> (try omega))
+    all_goals first
+      | exact hwl _ _
+      | (intro hh; have := hil _ hh; omega)
+      | (rintro rfl; omega)
+      | (intro hh; simp_all; omega)
+      | grind
+  case gCheck =>
+    have hslot : ∀ r : Res, r.slot?.isSome = true → r ≠ .none := by intro r; cases r <;> simp [Res.slot?]
+    all_goals (try (split at h)) <;> (try (split at h)) <;> (try (split at h)) <;>
+      (try simp only [Option.some.injEq, Prod.mk.injEq, reduceCtorEq] at h) <;>
+      (try (obtain ⟨rfl, rfl⟩ := h))
+    all_goals
+      (constructor <;> (try simp only [inLocked, kindOK, pcInv]) <;> (try intro k) <;> (try simp_all [upd]) <;>
+        (try (split <;> simp_all)) <;> (try omega))
+    all_goals first
+      | exact hwl _ _
+      | (intro hh; have := hil _ hh; omega)
+      | (rintro rfl; omega)
+      | (intro hh; simp_all; omega)
+      | grind
+  case fAlloc =>
+    have hshb : ∀ i, ((res th.key).slot?.bind fun sl => List.lookup sl g.shared) = some i → i < g.next := by
+      intro i h
+      cases hs : (res th.key).slot? with
+      | none => simp [hs] at h
+      | some sl =>
+        simp only [hs, Option.bind_some] at h
+        exact hG.initedLt _ (hG.sharedInited _ (lookup_mem h))
+    all_goals (try (split at h)) <;> (try (split at h)) <;> (try (split at h)) <;>
+      (try simp only [Option.some.injEq, Prod.mk.injEq, reduceCtorEq] at h) <;>
+      (try (obtain ⟨rfl, rfl⟩ := h))
+    all_goals
+      (constructor <;> (try simp only [inLocked, kindOK, pcInv]) <;> (try intro k) <;> (try simp_all [upd]) <;>
+        (try (split <;> simp_all)) <;> (try omega))
+    all_goals first
+      | exact hwl _ _
+      | (intro hh; have := hil _ hh; omega)
+      | (rintro rfl; omega)
+      | (intro hh; simp_all; omega)
+      | grind
   all_goals (try (split at h)) <;> (try (split at h)) <;> (try (split at h)) <;>
     (try simp only [Option.some.injEq, Prod.mk.injEq, reduceCtorEq] at h) <;>
     (try (obtain ⟨rfl, rfl⟩ := h))
